@@ -52,6 +52,7 @@ type input struct {
 	CorruptMark  int  `json:"corrupt_mark"`  // deletion-mark.json / no-compact-mark.json not JSON
 	BadVersion   bool `json:"bad_version"`   // one meta.json with version 9: the sync fails by itself
 	Cleaner      bool `json:"cleaner"`       // BucketCompactor built with a BlocksCleaner
+	Old          bool `json:"old,omitempty"` // every object was last modified 72 h ago: partial uploads are cleaned up
 	// StressBlocks > 0: additionally fetch a bucket of that many meta-only blocks through the
 	// ConcurrentLister with one Exists probe failing, 30 times (a failed listing must come back
 	// as an error of Fetch, not as a crash of the process).
@@ -555,7 +556,25 @@ type pipeline struct {
 	inmem *objstore.InMemBucket
 	sy    *compact.Syncer
 	comp  *compact.BucketCompactor
+	idm   *block.IgnoreDeletionMarkFilter
 	dir   string
+}
+
+// iteration mirrors compactMainFn of cmd/thanos/compact.go with downsampling disabled:
+// Compact; sync; retention (none configured); removal of aborted partial uploads.
+func (p *pipeline) iteration(ctx context.Context) error {
+	if err := p.comp.Compact(ctx); err != nil {
+		return err
+	}
+	if err := p.sy.SyncMetas(ctx); err != nil {
+		return err
+	}
+	c := func() prometheus.Counter { return promauto.With(nil).NewCounter(prometheus.CounterOpts{}) }
+	if err := compact.ApplyRetentionPolicyByResolution(ctx, log.NewNopLogger(), p.bkt, p.sy.Metas(), map[compact.ResolutionLevel]time.Duration{}, c()); err != nil {
+		return err
+	}
+	compact.BestEffortCleanAbortedPartialUploads(ctx, log.NewNopLogger(), p.sy.Partial(), p.bkt, c(), c(), c(), p.idm.DeletionMarkBlocks())
+	return nil
 }
 
 func newPipeline(in input, sc *scenario) (*pipeline, error) {
@@ -567,6 +586,10 @@ func newPipeline(in input, sc *scenario) (*pipeline, error) {
 		}
 	}
 	bkt := cu.NewRecBucket(inmem)
+	if in.Old {
+		old := time.Now().Add(-72 * time.Hour)
+		bkt.ModTime = func(string) (time.Time, bool) { return old, true }
+	}
 	logger := log.NewNopLogger()
 	ins := objstore.WithNoopInstr(bkt)
 	ignoreDeletionMarkFilter := block.NewIgnoreDeletionMarkFilter(logger, ins, deleteDelay/2, 4)
@@ -605,7 +628,7 @@ func newPipeline(in input, sc *scenario) (*pipeline, error) {
 	if err != nil {
 		return nil, err
 	}
-	return &pipeline{bkt: bkt, inmem: inmem, sy: sy, comp: bc, dir: dir}, nil
+	return &pipeline{bkt: bkt, inmem: inmem, sy: sy, comp: bc, idm: ignoreDeletionMarkFilter, dir: dir}, nil
 }
 
 func (p *pipeline) close() { os.RemoveAll(p.dir) }
@@ -617,11 +640,11 @@ func kindOf(op cu.Op) string {
 		return "KList"
 	case op.Kind == "exists" && strings.HasSuffix(op.Name, "/meta.json"):
 		return "KList" // ConcurrentLister probes meta.json while listing
-	case op.Kind == "get" && strings.HasSuffix(op.Name, "/meta.json"):
+	case (op.Kind == "get" || op.Kind == "getbody") && strings.HasSuffix(op.Name, "/meta.json"):
 		return "KMeta"
-	case op.Kind == "get" && strings.HasSuffix(op.Name, "/"+metadata.DeletionMarkFilename):
+	case (op.Kind == "get" || op.Kind == "getbody") && strings.HasSuffix(op.Name, "/"+metadata.DeletionMarkFilename):
 		return "KDelMark"
-	case op.Kind == "get" && strings.HasSuffix(op.Name, "/"+metadata.NoCompactMarkFilename):
+	case (op.Kind == "get" || op.Kind == "getbody") && strings.HasSuffix(op.Name, "/"+metadata.NoCompactMarkFilename):
 		return "KNoCompact"
 	}
 	return "KOther"
@@ -792,7 +815,7 @@ func run(raw json.RawMessage) (common.Case, error) {
 	if err != nil {
 		return c, err
 	}
-	fullErr := p.comp.Compact(ctx)
+	fullErr := p.iteration(ctx)
 	fullMut := 0
 	deleted, gcMarked := map[ulid.ULID]bool{}, map[ulid.ULID]bool{}
 	for _, op := range p.bkt.Ops() {
@@ -830,38 +853,64 @@ func run(raw json.RawMessage) (common.Case, error) {
 	var runs []string
 	var obs []any
 	kinds := map[string]int{}
+	type fault struct {
+		rid  string
+		op   cu.Op
+		body bool
+	}
+	var flts []fault
 	for _, r := range rids {
 		victim := ridOp[r]
+		flts = append(flts, fault{r, victim, false})
+		// a Get that found the object can also fail in the middle of the body
+		if victim.Kind == "get" && !victim.NotFound {
+			flts = append(flts, fault{strings.Replace(strings.Replace(strings.Replace(r, "(RMeta ", "(RMetaBody ", 1), "(RDel ", "(RDelBody ", 1), "(RNoc ", "(RNocBody ", 1), victim, true})
+		}
+	}
+	for _, ft := range flts {
+		victim := ft.op
 		p, err := newPipeline(in, sc)
 		if err != nil {
 			return c, err
 		}
-		p.bkt.FailName = func(kind, name string) bool { return kind == victim.Kind && name == victim.Name }
-		cerr := p.comp.Compact(ctx)
+		match := func(kind, name string) bool { return kind == victim.Kind && name == victim.Name }
+		if ft.body {
+			p.bkt.FailBody = match
+		} else {
+			p.bkt.FailName = match
+		}
+		cerr := p.iteration(ctx)
 		ops := p.bkt.Ops()
 		p.close()
 		after, names := mutAfterFault(ops)
 		fk := kindOf(victim) + " " + victim.Kind
+		if ft.body {
+			fk += " body"
+		}
 		kinds[fk]++
-		runs = append(runs, common.Tuple(r, common.Bool(cerr != nil), common.Nat(after)))
+		runs = append(runs, common.Tuple(ft.rid, common.Bool(cerr != nil), common.Nat(after)))
+		what := fmt.Sprintf("read %s %q of the sync failed", victim.Kind, victim.Name)
+		if ft.body {
+			what = fmt.Sprintf("the body of %q failed in the middle of the transfer during the sync", victim.Name)
+		}
 		if after > 0 && c.GoPred == "" {
-			c.GoPred = fmt.Sprintf("read %s %q of the sync failed, yet the compactor afterwards issued %d mutating bucket operation(s): %s", victim.Kind, victim.Name, after, strings.Join(names, ", "))
+			c.GoPred = fmt.Sprintf("%s, yet the compactor afterwards issued %d mutating bucket operation(s): %s", what, after, strings.Join(names, ", "))
 			c.Sig = "writes-after-failed-sync"
 		}
 		if cerr == nil && c.GoPred == "" {
-			c.GoPred = fmt.Sprintf("read %s %q of the sync failed but Compact returned no error", victim.Kind, victim.Name)
+			c.GoPred = fmt.Sprintf("%s but the iteration returned no error", what)
 			c.Sig = "failed-read-swallowed"
 		}
 		if len(obs) < 4 {
-			obs = append(obs, map[string]any{"failed_read": victim.Kind + " " + victim.Name, "compact_error": cerr != nil, "mutating_ops_after_fault": after})
+			obs = append(obs, map[string]any{"failed_read": victim.Kind + " " + victim.Name, "in_body": ft.body, "iteration_error": cerr != nil, "mutating_ops_after_fault": after})
 		}
 	}
 	c.Obs = map[string]any{"sync_reads": len(ridOp), "sync_fails_by_itself": syncErr != nil, "mutating_ops_on_complete_view": fullMut,
 		"complete_view_error": fmt.Sprint(fullErr), "fault_kinds": kinds, "sample_runs": obs, "view": len(metas), "partial": len(partial),
 		"cleaned": len(deleted), "gc_marked": len(gcMarked)}
-	c.Class = fmt.Sprintf("%s/selfail=%v/cleaner=%v", in.Lister, syncErr != nil, in.Cleaner)
+	c.Class = fmt.Sprintf("%s/selfail=%v/cleaner=%v/old=%v", in.Lister, syncErr != nil, in.Cleaner, in.Old)
 	c.Nontrivial = fullMut > 0 && len(rids) > 0
-	c.Coq = common.App("CSync2", common.Bool(in.Lister == "concurrent"), common.Bool(in.Cleaner), sc.coq(), baseTrace,
+	c.Coq = common.App("CSync2", common.Bool(in.Lister == "concurrent"), common.Bool(in.Cleaner), common.Bool(in.Old), sc.coq(), baseTrace,
 		sc.idList(metas), sc.idList(partial), common.Bool(syncErr != nil), common.Nat(baseMut),
 		sc.idList(deleted), sc.idList(gcMarked), common.Nat(fullMut), common.List(runs))
 	return c, nil
@@ -887,6 +936,7 @@ func gen(r *rand.Rand, tier string, n int) []any {
 		in.CorruptMeta = r.Intn(2)
 		in.CorruptMark = r.Intn(3)
 		in.BadVersion = r.Intn(12) == 0
+		in.Old = r.Intn(2) == 0
 		in.MidMarked = r.Intn(2)
 		in.DupRecentMarked = r.Intn(3) == 0
 		if r.Intn(12) == 0 {
